@@ -63,10 +63,10 @@ type s5Plan struct {
 	Eager   bool // server writes its whole script before reading anything
 	Forward int  // 0: forward dialer implements ContextDialer, 1: plain Dialer
 
-	Fault     string // "", trunc_eof, trunc_stall, wrong_version, no_acceptable, auth_fail, reply_code, rsv, atyp, odd_method
+	Fault      string // "", trunc_eof, trunc_stall, wrong_version, no_acceptable, auth_fail, reply_code, rsv, atyp, odd_method
 	FaultStage int
-	FaultByte byte
-	TruncAt   int
+	FaultByte  byte
+	TruncAt    int
 
 	CtxKind     int // 0 background, 1 cancellable (never cancelled unless Cancel), 2 deadline
 	Timeout     time.Duration
@@ -611,18 +611,18 @@ func (s *s5Server) drain() {
 // ---------------------------------------------------------------------------
 
 type s5Result struct {
-	returned  bool
-	err       error
-	bound     net.Addr
-	isConn    bool
-	at        time.Duration // simulated time of return
-	ctxErrAt  error         // ctx.Err() right after the return
-	cutAt     bool          // connection had been cut by the simulator before the return
-	fullAt    bool          // server had sent a complete valid reply before the return
-	closedAt  bool          // forward conn closed by the dialer at return
-	cutEver   bool          // the simulator cut the connection at some point of the run
-	trailing  []byte
-	trailErr  error
+	returned bool
+	err      error
+	bound    net.Addr
+	isConn   bool
+	at       time.Duration // simulated time of return
+	ctxErrAt error         // ctx.Err() right after the return
+	cutAt    bool          // connection had been cut by the simulator before the return
+	fullAt   bool          // server had sent a complete valid reply before the return
+	closedAt bool          // forward conn closed by the dialer at return
+	cutEver  bool          // the simulator cut the connection at some point of the run
+	trailing []byte
+	trailErr error
 }
 
 func s5Run(rt *rapid.T, t *testing.T) {
